@@ -24,6 +24,7 @@ class Models:
         self.key_universes = []
         self.ufun_axioms_used = set()
         _install(self)
+        self.hooks_instantiate.append(singleton_hook)
 
     # ---- registry --------------------------------------------------------------------------------
     def reg(self, name):
@@ -95,12 +96,7 @@ class Models:
             if isinstance(x, slice):
                 if x.step not in (None, 1):
                     raise Unsupported("strided slice @%s" % line)
-                lo = 0 if x.start is None else x.start
-                hi = arr.shape[k] if x.stop is None else x.stop
-                if not is_z3(lo) and lo < 0:
-                    lo = arith("+", arr.shape[k], lo)
-                if not is_z3(hi) and hi < 0:
-                    hi = arith("+", arr.shape[k], hi)
+                lo, hi = _clamp_slice(x, arr.shape[k])
                 axes.append(k)
                 offs[k] = lo
                 shape.append(arith("-", hi, lo))
@@ -176,12 +172,7 @@ class Models:
         order = []
         for k, x in enumerate(idx):
             if isinstance(x, slice):
-                lo = 0 if x.start is None else x.start
-                hi = arr.shape[k] if x.stop is None else x.stop
-                if not is_z3(lo) and lo < 0:
-                    lo = arith("+", arr.shape[k], lo)
-                if not is_z3(hi) and hi < 0:
-                    hi = arith("+", arr.shape[k], hi)
+                lo, hi = _clamp_slice(x, arr.shape[k])
                 rng[k] = (lo, hi)
                 order.append(k)
             else:
@@ -260,17 +251,13 @@ class Models:
         raise Unsupported("list repetition with symbolic count")
 
     def symlist_slice(self, ex, lst, sl, line):
-        lo = 0 if sl.start is None else sl.start
-        hi = lst.length if sl.stop is None else sl.stop
-        # python clamps slice bounds
-        lo_c = ite(compare("<", lo, 0), 0, ite(compare(">", lo, lst.length), lst.length, lo))
-        hi_c = ite(compare("<", hi, 0), 0, ite(compare(">", hi, lst.length), lst.length, hi))
-        n = ite(compare("<", hi_c, lo_c), 0, arith("-", hi_c, lo_c))
+        if sl.step not in (None, 1):
+            raise Unsupported("strided slice of a list")
+        lo_c, hi_c = _clamp_slice(sl, lst.length)
+        n = arith("-", hi_c, lo_c)
         k = fresh("k", z3.IntSort())
         comps = [z3.Lambda([k], z3.Select(c, k + V.z3int(lo_c))) for c in lst.comps]
-        out = SymList(n, lst.width, lst.dtype, comps=comps)
-        out.slice_of = (lst, lo_c, hi_c)
-        return out
+        return SymList(n, lst.width, lst.dtype, comps=comps)
 
     def value_attr(self, ex, obj, name, line):
         if isinstance(obj, SymArr):
@@ -368,6 +355,11 @@ class Models:
                     ex_.py_mutate_dict(obj)
                     obj.update(a[0])
                 return Builtin("dict.update", dupdate)
+        if isinstance(obj, Range):
+            if name == "start":
+                return obj.lo
+            if name == "stop":
+                return obj.hi
         if isinstance(obj, SymList):
             if name == "append":
                 raise Unsupported("append on a list of symbolic length")
@@ -395,6 +387,29 @@ class Models:
                         return Opaque("str." + name)
                 return Builtin("str." + name, smeth)
         raise Unsupported("attribute %s of %r @%s" % (name, type(obj).__name__, line))
+
+
+def _clamp_slice(x, n):
+    """NumPy/Python slice bounds: negative literals count from the end, then both are clamped to [0, n] and
+    an empty slice results when stop < start"""
+    if x.start is None and x.stop is None:
+        return 0, n
+    lo = 0 if x.start is None else x.start
+    hi = n if x.stop is None else x.stop
+
+    def norm(b):
+        if not is_z3(b):
+            if b < 0:
+                b = arith("+", n, b)
+            if not is_z3(b) and not is_z3(n):
+                return max(0, min(b, n))
+            return ite(compare("<", b, 0), 0, ite(compare(">", b, n), n, b))
+        b2 = ite(compare("<", b, 0), arith("+", n, b), b)
+        return ite(compare("<", b2, 0), 0, ite(compare(">", b2, n), n, b2))
+    lo, hi = norm(lo), norm(hi)
+    if not is_z3(lo) and not is_z3(hi):
+        return lo, max(lo, hi)
+    return lo, ite(compare("<", hi, lo), lo, hi)
 
 
 class MaskedRef:
@@ -919,3 +934,14 @@ def _install(M):
     M.table["numpy.float64"] = ModRef("numpy.float64")
     M.table["numpy.pi"] = V.const_pi()
     M.table["math.pi"] = V.const_pi()
+
+
+def singleton_hook(ex, cinfo, args, kwargs, line):
+    """classes with metaclass=Singleton: the one instance lives in ex.globals_heap (set up by the contract)"""
+    for kw in cinfo.node.keywords:
+        if kw.arg == "metaclass" and getattr(kw.value, "id", None) == "Singleton":
+            inst = ex.globals_heap.get(cinfo.name)
+            if inst is None:
+                raise Unsupported("singleton %s is not part of the contract's initial heap" % cinfo.name)
+            return (inst,)
+    return None
